@@ -294,3 +294,18 @@ def literal(node, env=None):
     if isinstance(node, ast.BinOp) and isinstance(node.op, ast.Mult):
         return literal(node.left, env) * literal(node.right, env)
     raise ValueError(f"not a literal: {text(node)}")
+
+
+def block_of(st, parent):
+    """the statement list (body / orelse / finalbody / handler body) that directly contains statement `st`"""
+    p = parent.get(st)
+    if p is None:
+        return None
+    for fld in ("body", "orelse", "finalbody"):
+        blk = getattr(p, fld, None)
+        if isinstance(blk, list) and st in blk:
+            return blk
+    for h in getattr(p, "handlers", []) or []:
+        if st in h.body:
+            return h.body
+    return None
